@@ -19,9 +19,12 @@
                                         tpt = index of the multiaddr template (informative)
 
    gater-level case:
-     0 nprobes probe* nev ( call res ans^nprobes  np p^np  na ip^na  ns (ip m16 ones)^ns )^nev
+     0 nprobes probe* nev ( call res view view )^nev
+       view := ans^nprobes  np p^np  na ip^na  ns (ip m16 ones)^ns
        res 0 = nil, 1 = error, 2 = process stopped; ans 1 = allow, 0 = refuse;
        the three lists are ListBlockedPeers / Addrs / Subnets after the event.
+       First view: the running gater.  Second view: a gater opened at that moment on the same
+       datastore (the running one is kept) — what a restart would enforce.
 
    end-to-end case (real swarms; G carries the gater, R is the remote):
      1 dir tpt reachable ncalls call^ncalls peer naddrs (hasip ip)^naddrs nev (code a b c)^nev
@@ -43,10 +46,28 @@
        gconns / gnotifs: G's ConnsToPeer(R) maximum and Connected notifications;
        idx^nidx: address index of each admitted connection on G (-1 unknown).
 
+   resolver case (real swarm dial path: addrsForDial -> resolveAddrs -> filterKnownUndialables -> dial
+   worker -> transport.  G knows R by IP and by /dns4 | /dns6 | /dns WebSocket addresses; the swarm's
+   multiaddr resolver is scripted per name (error / answers); the transport is the real WebSocket
+   transport with a recording Dial that, handed a name, looks it up itself — second scripted table —
+   and opens the connection to that IP, as websocket.maDial does through net.ResolveTCPAddr):
+     2 form ncalls call^ncalls peer nk kaddr^nk nev (code hasip ip allow)^nev
+       kaddr := 0 ip tls | 1 ok n ip^n dnsk tls thas tip
+                  ok 0: the swarm's resolver returns an error for the name (n = 0); ok 1: it answers
+                  with these addresses (after the family filter of /dns4 and /dns6).  Informative,
+                  for re-execution only: dnsk 0 /dns 4 /dns4 6 /dns6; tls 1 = /tls/ws; thas tip = what
+                  the transport's own lookup of the name returns
+       code 1 InterceptPeerDial (allow)      2 InterceptAddrDial (hasip ip: what ToIP gives; allow)
+            3 transport Dial (hasip ip)      8 the transport opens a connection to ip
+       form = informative (address templates used)
+
    DIAGNOSTICS  conform_case: [901; event; clause; detail] (gater), [901; clause; position] (e2e)
                 monitor_case: [902; event; clause; detail] (gater) where
-                  clause 1 probe answer (detail = probe index), 2/3/4 peer/address/subnet list;
-                [902; clause; ...] (e2e), clauses listed at pipeline_ok. *)
+                  clause 1 probe answer (detail = probe index), 2/3/4 peer/address/subnet list,
+                  5 an answer of the running gater differs from the reopened one's (detail = probe
+                  index), 6/7/8 their peer/address/subnet lists differ;
+                [902; clause; ...] (e2e), clauses listed at pipeline_ok;
+                [902; clause; position] (resolver case), clauses listed at res_scan. *)
 From Coq Require Import List NArith ZArith Bool.
 From Verif Require Import lib.Wire c10.Model.
 Import ListNotations.
@@ -205,8 +226,49 @@ Record obs := mkObs {
   o_ans : list bool;
   o_peers : list Z;
   o_addrs : list ip;
-  o_subnets : list snet
+  o_subnets : list snet;
+  (* the same four, answered by a gater opened on the same datastore right now *)
+  o_rans : list bool;
+  o_rpeers : list Z;
+  o_raddrs : list ip;
+  o_rsubnets : list snet
 }.
+
+Fixpoint first_diff_b (i : Z) (a b : list bool) : option Z :=
+  match a, b with
+  | [], [] => None
+  | x :: ra, y :: rb => if Bool.eqb x y then first_diff_b (i + 1)%Z ra rb else Some i
+  | _, _ => Some (-1)%Z
+  end.
+
+(* "Rules written through the gater survive a restart on the same datastore":
+   whenever a call has returned — nil or an error — or the gater has been
+   reopened, the running gater and a gater opened on the same datastore at
+   that moment enforce the same rules: same Intercept* answers, same rule
+   lists (peers by id, addresses by the address they denote, subnets by the
+   set of addresses they denote).  A call that reports a datastore error must
+   not leave memory and datastore disagreeing. *)
+Definition incl_b {A} (eqb : A -> A -> bool) (l1 l2 : list A) : bool :=
+  forallb (fun x => existsb (eqb x) l2) l1.
+Definition same_rules {A} (eqb : A -> A -> bool) (l1 l2 : list A) : bool :=
+  incl_b eqb l1 l2 && incl_b eqb l2 l1.
+Definition addr_same (a b : ip) : bool :=
+  let '(f, v) := norm_ip a in let '(g, w) := norm_ip b in Bool.eqb f g && (v =? w)%N.
+Definition subnet_same (s t : snet) : bool :=
+  match denote false s, denote false t with
+  | Some x, Some y => rid_eqb x y
+  | _, _ => false
+  end.
+
+Definition reopen_check (x : obs) : list Z :=
+  match first_diff_b 0 (o_ans x) (o_rans x) with
+  | Some i => [5; i]%Z
+  | None =>
+      if negb (same_rules Z.eqb (o_peers x) (o_rpeers x)) then [6; 0]%Z
+      else if negb (same_rules addr_same (o_addrs x) (o_raddrs x)) then [7; 0]%Z
+      else if negb (same_rules subnet_same (o_subnets x) (o_rsubnets x)) then [8; 0]%Z
+      else []
+  end.
 
 Definition ev_op (e : event) : option op :=
   match e with
@@ -238,7 +300,7 @@ Definition obs_check (ms : mstate) (prs : list probe) (x : obs) : list Z :=
       if negb (peers_ok ms (o_peers x)) then [2; 0]%Z
       else if negb (addrs_ok ms (o_addrs x)) then [3; 0]%Z
       else if negb (subnets_ok ms (o_subnets x)) then [4; 0]%Z
-      else []
+      else reopen_check x
   end.
 
 Fixpoint monitor_trace (prs : list probe) (ms : mstate) (i : Z) (tr : list (event * obs)) : list Z :=
@@ -272,8 +334,10 @@ Definition probe_answer (m : rules) (pr : probe) : bool :=
   end.
 
 Definition model_obs (prs : list probe) (e : event) (st : gstate) : obs :=
+  let re := load_rules (g_ds st) in
   mkObs (model_res e) (map (probe_answer (g_mem st)) prs)
-        (list_peers (g_mem st)) (list_addrs (g_mem st)) (list_subnets (g_mem st)).
+        (list_peers (g_mem st)) (list_addrs (g_mem st)) (list_subnets (g_mem st))
+        (map (probe_answer re) prs) (list_peers re) (list_addrs re) (list_subnets re).
 
 Fixpoint model_trace (prs : list probe) (st : gstate) (h : list event) : list (event * obs) :=
   match h with
@@ -296,14 +360,8 @@ Definition same_set {A} (eqb : A -> A -> bool) (l1 l2 : list A) : bool :=
   Nat.eqb (length l1) (length l2) &&
   forallb (fun x => existsb (eqb x) l2) l1 && forallb (fun y => existsb (eqb y) l1) l2.
 
-Fixpoint first_diff_b (i : Z) (a b : list bool) : option Z :=
-  match a, b with
-  | [], [] => None
-  | x :: ra, y :: rb => if Bool.eqb x y then first_diff_b (i + 1)%Z ra rb else Some i
-  | _, _ => Some (-1)%Z
-  end.
-
-(* diagnostic: [901; event index; clause; detail]  clause 0 result, 1 probe, 2/3/4 lists *)
+(* diagnostic: [901; event index; clause; detail]  clause 0 result, 1 probe, 2/3/4 lists,
+   5 probe / 6/7/8 lists of the reopened gater *)
 Definition obs_diff (m x : obs) : list Z :=
   if negb (Z.eqb (o_res m) (o_res x)) then [0; o_res m]%Z
   else match first_diff_b 0 (o_ans m) (o_ans x) with
@@ -312,7 +370,14 @@ Definition obs_diff (m x : obs) : list Z :=
            if negb (same_set Z.eqb (o_peers m) (o_peers x)) then [2; 0]%Z
            else if negb (same_set ip_eqb (o_addrs m) (o_addrs x)) then [3; 0]%Z
            else if negb (same_set snet_eqb (o_subnets m) (o_subnets x)) then [4; 0]%Z
-           else []
+           else match first_diff_b 0 (o_rans m) (o_rans x) with
+                | Some i => [5; i]%Z
+                | None =>
+                    if negb (same_set Z.eqb (o_rpeers m) (o_rpeers x)) then [6; 0]%Z
+                    else if negb (same_set ip_eqb (o_raddrs m) (o_raddrs x)) then [7; 0]%Z
+                    else if negb (same_set snet_eqb (o_rsubnets m) (o_rsubnets x)) then [8; 0]%Z
+                    else []
+                end
        end.
 
 Fixpoint conform_trace (prs : list probe) (st : gstate) (i : Z) (tr : list (event * obs)) : list Z :=
@@ -472,6 +537,77 @@ Definition conform_e2e (x : e2e) : list Z :=
   end.
 
 (* ======================================================================== *)
+(* resolver cases: addresses known by name                                    *)
+(* ======================================================================== *)
+Record rcase := mkRcase {
+  rc_calls : list event;
+  rc_peer : Z;
+  rc_addrs : list kaddr;
+  rc_evs : list rev
+}.
+
+(* The property on the recorded events of one outbound dial: "outbound dials are
+   refused before any transport dial to a blocked peer or address ... for every
+   textual form of the address (addresses with and without IP component)".  Clauses:
+     30 the peer is blocked: a transport was handed an address / opened a connection
+     31 a transport was handed an address whose IP is blocked
+     32 a transport opened a connection to an IP that is blocked — whatever textual
+        form (an IP address or a name) the address it was handed had
+   Diagnostic [902; clause; position]. *)
+Fixpoint res_scan (ms : mstate) (pB : bool) (i : Z) (evs : list rev) : list Z :=
+  match evs with
+  | [] => []
+  | e :: r =>
+      match e with
+      | RvTptDial oa =>
+          if pB then [30; i]%Z else if addr_must_refuse ms oa then [31; i]%Z else res_scan ms pB (i + 1)%Z r
+      | RvTptConn a =>
+          if pB then [30; i]%Z else if must_refuse ms a then [32; i]%Z else res_scan ms pB (i + 1)%Z r
+      | _ => res_scan ms pB (i + 1)%Z r
+      end
+  end.
+
+Definition monitor_res (x : rcase) : list Z :=
+  match mon_calls [] (rc_calls x) with
+  | None => [ERR_MALFORMED; 20]
+  | Some ms =>
+      match res_scan ms (is_B (st_of ms (IdPeer (rc_peer x)))) 0 (rc_evs x) with
+      | [] => []
+      | d => ERR_PROPERTY :: d
+      end
+  end.
+
+Definition oip_eqb (a b : option ip) : bool :=
+  match a, b with
+  | Some x, Some y => ip_eqb x y
+  | None, None => true
+  | _, _ => false
+  end.
+
+Definition rev_eqb (a b : rev) : bool :=
+  match a, b with
+  | RvPeerDial x, RvPeerDial y => Bool.eqb x y
+  | RvAddrDial x u, RvAddrDial y v => oip_eqb x y && Bool.eqb u v
+  | RvTptDial x, RvTptDial y => oip_eqb x y
+  | RvTptConn x, RvTptConn y => ip_eqb x y
+  | _, _ => false
+  end.
+
+(* conformance: the real dialer is concurrent, de-duplicates addresses and may stop
+   early, so every recorded event must be one the model produces (same gate answer
+   for the same address; only addresses the model resolves to are gated, dialed and
+   connected to).  Diagnostic [901; 1; position]. *)
+Fixpoint conform_revs (mp : list rev) (i : Z) (evs : list rev) : list Z :=
+  match evs with
+  | [] => []
+  | e :: r => if existsb (rev_eqb e) mp then conform_revs mp (i + 1)%Z r else [ERR_MISMATCH; 1; i]%Z
+  end.
+
+Definition conform_res (x : rcase) : list Z :=
+  let m := g_mem (run init_state (rc_calls x)) in
+  conform_revs (rdial m (rc_peer x) (rc_addrs x)) 0 (rc_evs x).
+
+(* ======================================================================== *)
 (* wire decoding                                                             *)
 (* ======================================================================== *)
 Local Open Scope Z_scope.
@@ -595,30 +731,23 @@ Fixpoint dec_snets (n : nat) (l : list Z) : option (list snet * list Z) :=
 
 Definition cnt (z : Z) : option nat := if (0 <=? z) && (z <? 100000) then Some (Z.to_nat z) else None.
 
-Definition dec_event (np : nat) (l : list Z) : option ((event * obs) * list Z) :=
-  match l with
-  | ev :: opk :: k :: x1 :: x2 :: x3 :: x4 :: x5 :: x6 :: x7 :: res :: r0 =>
-      match dec_call ev opk k x1 x2 x3 x4 x5 x6 x7, dec_bools np r0 with
-      | Some e, Some (ans, r1) =>
-          match r1 with
-          | n1 :: r2 =>
-              match cnt n1 with
-              | Some c1 =>
-                  match dec_zs c1 r2 with
-                  | Some (ps, n2 :: r3) =>
-                      match cnt n2 with
-                      | Some c2 =>
-                          match dec_ips c2 r3 with
-                          | Some (is, n3 :: r4) =>
-                              match cnt n3 with
-                              | Some c3 =>
-                                  match dec_snets c3 r4 with
-                                  | Some (ss, r5) => Some ((e, mkObs res ans ps is ss), r5)
-                                  | None => None
-                                  end
-                              | None => None
-                              end
-                          | _ => None
+(* ans^np  np p^np  na ip^na  ns (ip m16 ones)^ns *)
+Definition dec_view (np : nat) (l : list Z) : option ((list bool * list Z * list ip * list snet) * list Z) :=
+  match dec_bools np l with
+  | Some (ans, n1 :: r2) =>
+      match cnt n1 with
+      | Some c1 =>
+          match dec_zs c1 r2 with
+          | Some (ps, n2 :: r3) =>
+              match cnt n2 with
+              | Some c2 =>
+                  match dec_ips c2 r3 with
+                  | Some (is, n3 :: r4) =>
+                      match cnt n3 with
+                      | Some c3 =>
+                          match dec_snets c3 r4 with
+                          | Some (ss, r5) => Some ((ans, ps, is, ss), r5)
+                          | None => None
                           end
                       | None => None
                       end
@@ -626,7 +755,21 @@ Definition dec_event (np : nat) (l : list Z) : option ((event * obs) * list Z) :
                   end
               | None => None
               end
-          | [] => None
+          | _ => None
+          end
+      | None => None
+      end
+  | _ => None
+  end.
+
+Definition dec_event (np : nat) (l : list Z) : option ((event * obs) * list Z) :=
+  match l with
+  | ev :: opk :: k :: x1 :: x2 :: x3 :: x4 :: x5 :: x6 :: x7 :: res :: r0 =>
+      match dec_call ev opk k x1 x2 x3 x4 x5 x6 x7, dec_view np r0 with
+      | Some e, Some ((ans, ps, is, ss), r1) =>
+          match dec_view np r1 with
+          | Some ((rans, rps, ris, rss), r2) => Some ((e, mkObs res ans ps is ss rans rps ris rss), r2)
+          | None => None
           end
       | _, _ => None
       end
@@ -766,6 +909,88 @@ Definition dec_e2e (l : list Z) : option e2e :=
   | _ => None
   end.
 
+Fixpoint dec_kaddrs (n : nat) (l : list Z) : option (list kaddr * list Z) :=
+  match n with
+  | O => Some ([], l)
+  | S n' =>
+      match l with
+      | 0 :: f :: a :: b :: c :: d :: _tls :: r =>
+          match dec_ip f a b c d, dec_kaddrs n' r with
+          | Some i, Some (ks, r') => Some (KIp i :: ks, r')
+          | _, _ => None
+          end
+      | 1 :: ok :: cn :: r =>
+          match cnt cn with
+          | Some c =>
+              match dec_ips c r with
+              | Some (is, _dnsk :: _tls :: _th :: _t0 :: _t1 :: _t2 :: _t3 :: _t4 :: r1) =>
+                  match dec_kaddrs n' r1 with
+                  | Some (ks, r') =>
+                      if ok =? 1 then Some (KName (Some is) :: ks, r')
+                      else if (ok =? 0) && (cn =? 0) then Some (KName None :: ks, r')
+                      else None
+                  | None => None
+                  end
+              | _ => None
+              end
+          | None => None
+          end
+      | _ => None
+      end
+  end.
+
+Definition dec_rev (c h f a b d e al : Z) : option rev :=
+  if negb ((al =? 0) || (al =? 1)) then None
+  else if c =? 1 then Some (RvPeerDial (zbool al))
+  else if c =? 2 then option_map (fun o => RvAddrDial o (zbool al)) (dec_oip h f a b d e)
+  else if c =? 3 then option_map RvTptDial (dec_oip h f a b d e)
+  else if c =? 8 then option_map RvTptConn (dec_ip f a b d e)
+  else None.
+
+Fixpoint dec_revs (n : nat) (l : list Z) : option (list rev * list Z) :=
+  match n with
+  | O => Some ([], l)
+  | S n' =>
+      match l with
+      | c :: h :: f :: a :: b :: d :: e :: al :: r =>
+          match dec_rev c h f a b d e al, dec_revs n' r with
+          | Some x, Some (xs, r') => Some (x :: xs, r')
+          | _, _ => None
+          end
+      | _ => None
+      end
+  end.
+
+Definition dec_rcase (l : list Z) : option rcase :=
+  match l with
+  | _form :: nc :: r0 =>
+      match cnt nc with
+      | Some c0 =>
+          match dec_calls c0 r0 with
+          | Some (calls, p :: nk :: r1) =>
+              match cnt nk with
+              | Some c1 =>
+                  match dec_kaddrs c1 r1 with
+                  | Some (ks, ne :: r2) =>
+                      match cnt ne with
+                      | Some c2 =>
+                          match dec_revs c2 r2 with
+                          | Some (evs, []) => Some (mkRcase calls p ks evs)
+                          | _ => None
+                          end
+                      | None => None
+                      end
+                  | _ => None
+                  end
+              | None => None
+              end
+          | _ => None
+          end
+      | None => None
+      end
+  | _ => None
+  end.
+
 Definition conform_case (l : list Z) : list Z :=
   match l with
   | 0 :: r =>
@@ -777,6 +1002,11 @@ Definition conform_case (l : list Z) : list Z :=
       match dec_e2e r with
       | Some x => conform_e2e x
       | None => [ERR_MALFORMED; 1]
+      end
+  | 2 :: r =>
+      match dec_rcase r with
+      | Some x => conform_res x
+      | None => [ERR_MALFORMED; 3]
       end
   | _ => [ERR_MALFORMED; 2]
   end.
@@ -792,6 +1022,11 @@ Definition monitor_case (l : list Z) : list Z :=
       match dec_e2e r with
       | Some x => monitor_e2e x
       | None => [ERR_MALFORMED; 1]
+      end
+  | 2 :: r =>
+      match dec_rcase r with
+      | Some x => monitor_res x
+      | None => [ERR_MALFORMED; 3]
       end
   | _ => [ERR_MALFORMED; 2]
   end.
